@@ -11,6 +11,9 @@ Local Close Scope Q_scope.
 Local Close Scope Qc_scope.
 Local Open Scope nat_scope.
 
+(* one step of a sequence op.T.I, op.I.T, op.I.I ... *)
+Inductive step := ST | SI.
+
 Section BlockMat.
   Variable K : Type.
   Variables (k0 k1 : K) (kadd kmul : K -> K -> K).
@@ -182,6 +185,23 @@ Section BlockMat.
     | _ => inverse keqb k1 kmul kinv fuel order e
     end.
 
+  (* sequences of .T / .I applied from left to right: steps [ST; SI] e is e.T.I *)
+  Fixpoint steps (fuel : nat) (order : list rule_id) (s : list step) (e : op) : result op :=
+    match s with
+    | [] => Ok e
+    | ST :: r => steps fuel order r (transpose e)
+    | SI :: r => e' <- binv fuel order e ;; steps fuel order r e'
+    end.
+  (* every list of blocks met by an inverse along the sequence is a list of square blocks *)
+  Fixpoint square_along (fuel : nat) (order : list rule_id) (s : list step) (l : list op) : Prop :=
+    match s with
+    | [] => True
+    | ST :: r => square_along fuel order r (map (@transpose K) l)
+    | SI :: r => forallb (@is_square K) l = true /\
+                 forall l', mapM (binv fuel order) l = Ok l' -> square_along fuel order r l'
+    end.
+  Definition oid_after (s : list step) (i : N) : N := match s with [] => i | _ => fresh end.
+
   (* what the block constructors require of the blocks *)
   Definition shared_ok (b : bkind) (l : list op) : Prop :=
     match b with
@@ -210,3 +230,5 @@ Definition x_stacked (tb : table) (b : bkind) (l : list xop) : option (list (lis
             | BDiag => block_diag k0 (combine Ms (map (fun e => struct_size (in_struct e)) l))
             end)
     (omapl (x_rows tb) l).
+(* op.T.I, op.I.T, ... of the correspondence harness *)
+Definition x_steps (order : list rule_id) := steps k1 Qcmult keqb Qcinv alg_fuel order.
